@@ -576,6 +576,7 @@ def grams_for(prop, tier, seed):
         g += F.fam_skipuntil(tier)
         sr = F.fam_skiprules(tier)
         g += sr[::6] if q else sr
+        g += F.fam_odd(tier)
         return g
     if prop == "C03":
         g = F.fam_ops(tier)
@@ -592,6 +593,7 @@ def grams_for(prop, tier, seed):
         g += k[::12] if q else k[::3]
         g += F.fam_repo(tier)
         g += F.fam_skipuntil(tier)
+        g += F.fam_odd(tier)
         return g
     if prop == "C04":
         g = F.fam_trail(tier)
